@@ -3,7 +3,7 @@ _A = ['op_literal', 'op_drop', 'op_drop_n', 'op_dup', 'op_loop', 'op_jump_if_fal
       'op_equal', 'op_not_equal', 'op_constant', 'op_constant_long', 'op_send', 'op_receive',
       'op_push_handler', 'op_pop_handler', 'op_check_handler', 'op_continue_unwind', 'op_get_error', 'op_raise',
       'op_invoke', 'invoke', 'op_super_invoke', 'op_get_super', 'bind_method', 'call_method', 'invoke_from_class',
-      'op_get_prop_by_name', 'op_set_prop_by_name', 'op_get_prop', 'op_set_prop']
+      'op_get_prop_by_name', 'op_set_prop_by_name', 'op_get_prop', 'op_set_prop', 'op_channel', 'op_buffered_channel']
 
 UNIT = dict(
   name='ops',
@@ -73,6 +73,13 @@ UNIT = dict(
     # R4: Option::or_else with a closure that captures &mut self
     ('R4', 'Vm::op_send', dict(pat=r'(\w+)\.or_else\(\|\|\s*self\.fiber\.get_runnable\(\)\)', rep=r'(match \1 { Some(verif_w) => Some(verif_w), None => self.fiber.get_runnable() })', regex=True, optional=True)),
     ('R4', 'Vm::op_receive', dict(pat=r'(\w+)\.or_else\(\|\|\s*self\.fiber\.get_runnable\(\)\)', rep=r'(match \1 { Some(verif_w) => Some(verif_w), None => self.fiber.get_runnable() })', regex=True, optional=True)),
+    # channel creation: manage_obj is generic over the managed type; the model has one allocation stub per type (R6); float tests through named stubs (R14)
+    ('R6', 'Vm::op_channel', dict(pat='self.manage_obj(Channel::', rep='self.manage_chan(Channel::', count=1)),
+    ('R6', 'Vm::op_buffered_channel', dict(pat='self.manage_obj(Channel::', rep='self.manage_chan(Channel::', count=1)),
+    ('R14', 'Vm::op_buffered_channel', dict(pat=r'(\w+)\.fract\(\) != 0\.0', rep=r'verif_has_fract(\1)', regex=True, count=1)),
+    ('R14', 'Vm::op_buffered_channel', dict(pat=r'\b(\w+) < (\d+\.\d+)', rep=r'verif_flt(\1, \2)', regex=True, optional=True)),
+    ('R14', 'Vm::op_buffered_channel', dict(pat=r'\b(\w+) <= (\d+\.\d+)', rep=r'verif_fle(\1, \2)', regex=True, optional=True)),
+    ('R14', 'Vm::op_buffered_channel', dict(pat=r'\b(\w+) as usize', rep=r'verif_f64_to_usize(\1)', regex=True, count=1)),
     # R14: float operators, string content comparison and Value equality routed through named stubs (generic, order-preserving)
     ('R14', 'Vm::*'),
     # the String::with_capacity + push_str + push_str concatenation buffer (str byte reasoning unsupported)
